@@ -34,6 +34,51 @@ type inlining struct {
 
 var inl *inlining
 
+// errorSentinels: package-level variables of an interface type that the whole repository assigns exactly once, in
+// their package initialiser, with a fresh errors.New / fmt.Errorf value (var ErrX = errors.New("...")): a load of
+// such a variable is never nil.
+var errorSentinels map[*ssa.Global]bool
+
+func (w *World) findErrorSentinels() {
+	stores := map[*ssa.Global][]*ssa.Store{}
+	for _, f := range w.RepoFns {
+		for _, b := range f.Blocks {
+			for _, in := range b.Instrs {
+				if st, ok := in.(*ssa.Store); ok {
+					if g, ok := st.Addr.(*ssa.Global); ok {
+						stores[g] = append(stores[g], st)
+					}
+				}
+			}
+		}
+	}
+	errorSentinels = map[*ssa.Global]bool{}
+	for g, sts := range stores {
+		if len(sts) != 1 || sts[0].Parent().Name() != "init" || sts[0].Parent().Parent() != nil {
+			continue
+		}
+		v := sts[0].Val
+		if mi, ok := v.(*ssa.MakeInterface); ok {
+			v = mi.X
+		}
+		if c, ok := v.(*ssa.Call); ok {
+			if k := CalleeKey(c); k == "errors.New" || k == "fmt.Errorf" {
+				errorSentinels[g] = true
+			}
+		}
+	}
+}
+
+// IsErrorSentinel reports whether v is a load of an error sentinel variable (see errorSentinels).
+func IsErrorSentinel(v ssa.Value) bool {
+	u, ok := v.(*ssa.UnOp)
+	if !ok || u.Op != token.MUL {
+		return false
+	}
+	g, ok := u.X.(*ssa.Global)
+	return ok && errorSentinels[g]
+}
+
 // DisableInlining turns virtual inlining off (every primitive is intra-procedural again).
 func DisableInlining() { inl = nil }
 
@@ -42,6 +87,7 @@ func InliningEnabled() bool { return inl != nil }
 
 // EnableInlining selects the call sites to inline. mentioned(key, name) tells whether a rule names the function.
 func (w *World) EnableInlining(mentioned func(key, name string) bool) int {
+	w.findErrorSentinels()
 	st := &inlining{callee: map[ssa.Instruction]*ssa.Function{}, sites: map[*ssa.Function][]*ssa.Call{}, body: map[*ssa.Function][]*ssa.Function{}, inBody: map[*ssa.Function]map[*ssa.Function]bool{}}
 	top := func(f *ssa.Function) *ssa.Function {
 		for f.Parent() != nil {
@@ -468,5 +514,65 @@ func EffectiveReturns(f *ssa.Function) []*ssa.Return {
 		}
 	}
 	rec(f, 0)
+	return out
+}
+
+// VCall is a call seen from an anchored function f: the call itself when it is written in f (or in a helper that is
+// called once), or one instance per call of the helper that contains it, with the helper's parameters among the
+// arguments replaced by what that call of the helper passes. At is the instruction that stands for the call in
+// ordering / guard questions asked about f: the call, or the helper's call site.
+type VCall struct {
+	Call ssa.CallInstruction
+	Site *ssa.Call
+	At   ssa.Instruction
+	Args []ssa.Value // as CallArgs (no receiver)
+}
+
+// BindAt resolves v, a value of the helper that contains vc.Call, at the helper's call site of this instance.
+func (vc VCall) BindAt(v ssa.Value) ssa.Value {
+	if vc.Site == nil || v == nil {
+		return v
+	}
+	h := InlinedCallee(vc.Site)
+	res := v
+	WithoutInlining(func() {
+		for _, o := range append(Origins(v), v) {
+			if p, ok := o.(*ssa.Parameter); ok && p.Parent() == h {
+				for i, q := range h.Params {
+					if q == p && i < len(vc.Site.Call.Args) {
+						res = vc.Site.Call.Args[i]
+					}
+				}
+			}
+		}
+	})
+	return res
+}
+
+// VirtualCalls lists the calls to keys in the (inlined) body of f, one instance per call of a shared helper.
+func VirtualCalls(f *ssa.Function, callArgs func(ssa.CallInstruction) []ssa.Value, calls []ssa.CallInstruction) []VCall {
+	var out []VCall
+	for _, c := range calls {
+		h := c.Parent()
+		var sites []*ssa.Call
+		if h != f && IsInlined(h) {
+			for _, s := range InlineSites(h) {
+				if InBody(f, s.Parent()) {
+					sites = append(sites, s)
+				}
+			}
+		}
+		if len(sites) < 2 {
+			out = append(out, VCall{Call: c, At: c, Args: callArgs(c)})
+			continue
+		}
+		for _, s := range sites {
+			vc := VCall{Call: c, Site: s, At: s}
+			for _, a := range callArgs(c) {
+				vc.Args = append(vc.Args, vc.BindAt(a))
+			}
+			out = append(out, vc)
+		}
+	}
 	return out
 }
